@@ -64,7 +64,8 @@ theorem read_diverges_without_memo : ∀ fuel seen,
     have h1 : lookupFile selfRefWs "p".toList = some [.sub [".".toList]] := by decide
     have h2 : resolveFile ⟨false, false⟩ "p".toList [.sub [".".toList]] = some ([], ["p".toList]) := by decide
     have h3 : sortDedup ["p".toList] = ["p".toList] := by decide
-    simp only [h1, h2, h3]
+    have h0 : List.any [Decl.sub [".".toList]] isGarbage = false := by decide
+    simp only [h1, h0, h2, h3]
     simp only [optStep, List.foldl_cons, List.foldl_nil, if_false, Bool.false_eq_true, false_and]
     have := ih seen
     simp
@@ -147,10 +148,11 @@ example : (loadList ["s".toList] 9 ["a".toList]
                 ⟨"c".toList, .rule, ["s".toList, "b".toList]⟩] }).map (fun s => (s.errs, s.loaded)) =
     some ([], ["a".toList, "c".toList, "b".toList, "s".toList]) := by decide
 
-/-- **Duplicated names, empty names and unnamed rules are reported and nothing is built.** -/
+/-- **Duplicated names, empty names, unnamed rules and build files that do not parse are
+    reported and nothing is built.** -/
 theorem dup_or_empty_reported (cfg : Cfg) (ws : Ws) (fuel : Nat) (targets : List Str) (evs : List Ev)
     (hev : collectAll cfg ws fuel = some evs)
-    (h : (∃ d, Ev.fileErr d ∈ evs) ∨ (∃ n, Ev.reg n ∈ evs ∧ n.name = []) ∨
+    (h : ((∃ d, Ev.fileErr d ∈ evs) ∨ (∃ d, Ev.syntaxErr d ∈ evs)) ∨ (∃ n, Ev.reg n ∈ evs ∧ n.name = []) ∨
       (∃ a n b m c, evs = a ++ [Ev.reg n] ++ b ++ [Ev.reg m] ++ c ∧ n.name = m.name)) :
     ∃ errs, errs ≠ [] ∧ run cfg ws fuel targets = .failed errs := by
   have hne := registerAll_reports evs h
@@ -164,6 +166,8 @@ example : run (fixedCfg false)
     .failed [.dup "p/x.fileset".toList] := by decide
 example : run (fixedCfg false) ⟨["p".toList], [("p".toList, [.bundle ".".toList []])], []⟩ 5 ["p".toList] =
     .failed [.noName "p".toList] := by decide
+example : run (fixedCfg false) ⟨["p".toList], [("p".toList, [.bundle "a".toList [], .garbage 25])], []⟩ 5 ["p/a".toList] =
+    .failed [.syntax "p".toList] := by decide
 
 /-- **Any error of the loading pass stops the build as well** -/
 theorem load_error_nothing_built (cfg : Cfg) (ws : Ws) (fuel : Nat) (targets : List Str) (log loaded : List Str)
